@@ -531,26 +531,13 @@ def _template_text(repo: Repo, mod: Module, fn: ast.AST, env: dict) -> str:
             return super()._call(e)
 
     ev = Ev(repo, mod, dict(env))
-    for s in fn.body:  # type: ignore[attr-defined]
-        if isinstance(s, FuncDef) or (isinstance(s, ast.Expr) and isinstance(s.value, ast.Constant)):
-            continue
-        if isinstance(s, ast.Assign) and len(s.targets) == 1 and isinstance(s.targets[0], ast.Name):
-            try:
-                ev.env[s.targets[0].id] = ev.eval(s.value)
-            except NotStatic as e:
-                raise AnalysisError(f"introspection query template not static at line {s.lineno}: {e}") from e
-            continue
-        if isinstance(s, ast.Return):
-            try:
-                v = ev.eval(s.value)
-            except NotStatic as e:
-                raise AnalysisError(f"introspection query template not static: {e}") from e
-            if not isinstance(v, str):
-                raise AnalysisError("introspection query is not a string")
-            return v
-        if isinstance(s, ast.If):
-            continue
-    raise AnalysisError("get_introspection_query: no return")
+    try:
+        v = ev._exec_block(fn.body)  # type: ignore[attr-defined]
+    except NotStatic as e:
+        raise AnalysisError(f"introspection query template not static: {e}") from e
+    if not isinstance(v, str):
+        raise AnalysisError("get_introspection_query: the folded body does not return a string")
+    return v
 
 
 def _selections_by_type(text: str) -> dict[str, set[str]]:
@@ -1183,9 +1170,11 @@ def args_oneline(check: Check, repo: Repo, rule: str = "ARGS-ONELINE") -> None:
     )
     fn = repo.func("utilities.print_schema", "print_args")
     mod = repo.mod("utilities.print_schema")
-    cands = [s for s in walk_body(fn) if isinstance(s, ast.If) and any(
-        isinstance(r, ast.Return) and r.value is not None and '", "' in unparse(r.value).replace("'", '"') and "print_description" not in unparse(r.value)
-        for r in s.body)]
+    def one_line_value(st: ast.AST) -> bool:
+        v = st.value if isinstance(st, (ast.Return, ast.Assign)) and getattr(st, "value", None) is not None else None
+        return v is not None and '", "' in unparse(v).replace("'", '"') and "print_description" not in unparse(v)
+
+    cands = [s for s in walk_body(fn) if isinstance(s, ast.If) and any(one_line_value(r) for r in s.body)]
     if len(cands) != 1:
         raise AnalysisError("print_args: the one-line branch was not found")
     test = cands[0].test
